@@ -81,8 +81,10 @@ def lib_eval(I, what, n_batch=1, eps=None):
     # maps ("LLVM compilation error: Cannot allocate memory", then a crash) in the thorough tier
     global _N_EVAL
     _N_EVAL += 1
-    if _N_EVAL % 150 == 0:
+    if _N_EVAL % 100 == 0:
+        import gc
         jax.clear_caches()
+        gc.collect()
     trial, wd, hd, ham = wf.build_lib(I, n_batch=n_batch, eps=eps)
     ups = jnp.array(np.array([w[0] for w in I["walkers"]]))
     dns = jnp.array(np.array([w[1] for w in I["walkers"]]))
